@@ -141,7 +141,7 @@ func init() {
 				bound = 2
 			}
 			ps := []*harness.Phase{
-				{Name: "required-decode", Bound: bound, Rule: "7 id triples x 8 required-masks x 8 nesting positions x (64 omission pairs + 3 wrong-wire-type variants) x 6 one-call histories (none / successful same type / successful sibling type / required-missing failure / truncation failures) x pool answers with <=bound deviations; distinct by (type, message, history)", Body: func(c *explore.C) { c09Decode(c, tier) }},
+				{Name: "required-decode", Bound: bound, Rule: "5 (thorough 7) id triples x 8 required-masks x 8 nesting positions x (64 omission pairs + 3 wrong-wire-type variants) x 6 one-call histories (none / successful same type / successful sibling type / required-missing failure / truncation failures) x pool answers with <=bound deviations; distinct by (type, message, history)", Body: func(c *explore.C) { c09Decode(c, tier) }},
 				{Name: "required-encode", Rule: "7 id triples x 8 masks x 8 positions x {zero, nil, set} values: every required field id occurs in the output", Body: func(c *explore.C) { c09Encode(c, tier) }},
 			}
 			return append(ps, e3Phases("C09")...)
@@ -150,7 +150,11 @@ func init() {
 }
 
 func c09Decode(c *explore.C, tier universe.Tier) {
-	tri := c09Triples[c.Choose(len(c09Triples), explore.Data, "ids")]
+	tris := c09Triples
+	if tier == universe.Quick {
+		tris = tris[1:6] // quick: five of the seven id triples
+	}
+	tri := tris[c.Choose(len(tris), explore.Data, "ids")]
 	mask := c.Choose(8, explore.Data, "required-mask")
 	pos := c09Positions[c.Choose(len(c09Positions), explore.Data, "position")]
 	core := c09Core(tri, mask)
